@@ -88,7 +88,9 @@ RULE = ('cases 0-15 = the 16 factory flag tuples (get_predefined must return a c
         'routed through on_exception / finalize). "ctor" = states given as dicts, part of them WITHOUT an '
         'ignore_invalid_triggers key on a machine built with the flag set (they snapshot it), transitions given '
         'positionally with 6-8 entries (constructor transitions=[[...]], add_transitions, add_transition(*args)); later '
-        'machine.ignore_invalid_triggers is assigned the opposite value (and back), followed by invalid and unknown events. Each case runs on 12 classes x '
+        'machine.ignore_invalid_triggers is assigned the opposite value (and back), followed by invalid and unknown events; '
+        'for part of the states the enter / exit callbacks are registered after construction (machine.on_enter(state, cb) / '
+        'on_exit(state, cb) on the hierarchical classes, machine.on_enter_<state>(cb) / on_exit_<state>(cb) on all). Each case runs on 12 classes x '
         '{by name, through the factory} x diagram backends %s (unavailable here: %s). Non-trivial: the base run '
         'executed a transition after a failed check, or processed >= 2 events / raised, and at least one async class '
         'was compared inside the async envelope; distinct by case hash.' % (BACKENDS, MISSING_BACKENDS))
@@ -657,7 +659,11 @@ def gen_ctor(rng):
         ops.append(['setignore', flag])
         trigs(rng.randint(1, 3))
     c['ops'] = ops
-    c['ctor'] = dict(omit=omit, routes=routes)
+    # states whose enter / exit callbacks are registered AFTER construction: machine.on_enter(state, cb) /
+    # machine.on_exit(state, cb) where the class has them (hierarchical classes), machine.on_enter_<state>(cb) /
+    # machine.on_exit_<state>(cb) otherwise
+    later = [sid for sid, d in m['states'] if (d['enter'] or d['exit']) and rng.random() < 0.6]
+    c['ctor'] = dict(omit=omit, routes=routes, later=later)
     c['queued'] = 0
     c.pop('cls', None)
     c.pop('history', None)
@@ -672,10 +678,15 @@ def build_ctor(case, world, cls, extra_kwargs):
     m = case['machine']
     R = world.recorder
     omit = set(case['ctor']['omit'])
+    later_set = set(case['ctor'].get('later', []))
+    later = []
     states = []
     for sid, d in m['states']:
-        sd = dict(name='s%d' % sid, on_enter=[R('enter', c) for c in d['enter']],
-                  on_exit=[R('exit', c) for c in d['exit']], final=d['final'])
+        sd = dict(name='s%d' % sid, final=d['final'])
+        if sid in later_set:
+            later.append(('s%d' % sid, [R('enter', c) for c in d['enter']], [R('exit', c) for c in d['exit']]))
+        else:
+            sd.update(on_enter=[R('enter', c) for c in d['enter']], on_exit=[R('exit', c) for c in d['exit']])
         if sid not in omit:
             sd['ignore_invalid_triggers'] = d['ignore']
         states.append(sd)
@@ -704,6 +715,12 @@ def build_ctor(case, world, cls, extra_kwargs):
               on_final=[R('on_final', c) for c in m['on_final']])
     kw.update(extra_kwargs)
     machine = cls(**kw)
+    for k_l, (name, ent, exi) in enumerate(later):
+        use_method = hasattr(type(machine), 'on_enter') and hasattr(type(machine), 'on_exit') and k_l % 2 == 0
+        for cb in exi:
+            machine.on_exit(name, cb) if use_method else getattr(machine, 'on_exit_' + name)(cb)
+        for cb in ent:
+            machine.on_enter(name, cb) if use_method else getattr(machine, 'on_enter_' + name)(cb)
     if by_route['add_transitions']:
         machine.add_transitions(by_route['add_transitions'])
     for r in by_route['add_transition']:
